@@ -135,6 +135,52 @@ Example ex_aborted_lookup :
   m_zone (search_cache (st_dc st) (3 * s) [1;2;9]%N false) = [].
 Proof. vm_compute. repeat split; reflexivity. Qed.
 
+(* a composed answer: an alias's target leg (the resolver's DNAME leg, the cache layer's CNAME chase, any forked
+   sub-query) runs under its own request tree c; where its records - or its denial - become part of the answer
+   assembled in tree p its cut is folded into p (AFold), and what p then admits carries the lineage of BOTH legs
+   and ends within the cut of both, whatever TTL it is admitted with (the 5 s floor included) *)
+Lemma composed_answer_lemma : forall fx st p c key ttl now,
+  match st_ans (step fx (AStore p key ttl now) (step fx (AFold p c) st)) with
+  | e :: _ =>
+      incl (mt_lin (st_meta st c)) (ae_lin e) /\ incl (mt_lin (st_meta st p)) (ae_lin e) /\
+      (forall t, cut_time (mt_cut (st_meta st c)) = Some t -> ae_end e <= t) /\
+      (forall t, cut_time (mt_cut (st_meta st p)) = Some t -> ae_end e <= t)
+  | [] => False
+  end.
+Proof.
+  intros fx st p c key ttl now. cbn [step st_ans]. rewrite note_meta_same. cbn [mt_lin mt_cut].
+  split; [apply incl_appl, incl_refl|]. split; [apply incl_appr, incl_refl|].
+  assert (Hle : forall v, cut_le (bound_cut (mt_cut (st_meta st p)) (mt_cut (st_meta st c))) v ->
+                ae_end (mk_ae key now (admit_ttl ttl)
+                              (cut_time (bound_cut (mt_cut (st_meta st p)) (mt_cut (st_meta st c))))
+                              (mt_lin (st_meta st c) ++ mt_lin (st_meta st p))) <= v).
+  { intros v Hv. destruct (bound_cut (mt_cut (st_meta st p)) (mt_cut (st_meta st c))) as [[tb kb]|] eqn:E; cbn in Hv; [|contradiction].
+    pose proof (ae_end_le_cut (mk_ae key now (admit_ttl ttl) (Some tb) (mt_lin (st_meta st c) ++ mt_lin (st_meta st p))) tb eq_refl).
+    cbn [cut_time option_map fst]. lia. }
+  split; intros t Ht; apply Hle.
+  - apply bound_cut_le_r. destruct (mt_cut (st_meta st c)) as [[tc kc]|]; cbn in *; [inversion Ht; lia|discriminate].
+  - apply bound_cut_le_l. destruct (mt_cut (st_meta st p)) as [[tp kp]|]; cbn in *; [inversion Ht; lia|discriminate].
+Qed.
+
+(* an alias in a zone held for 12 h onto a zone held for 30 s, target leg NXDOMAIN with a one-hour denial: the
+   target's own entry and the composed denial both end with the 30 s lease; and the fold is what does it - the same
+   history without it (the composed answer admitted under the outer tree alone) keeps the denial for its hour *)
+Definition ex_alias_acts (fold : bool) : list act :=
+  let s := 1000000000 in
+  [ASeed 0 0 [1;2;9]%N false 0;
+   ARefer 0 (mk_ref [1%N] 1 true 172800 None true 0 false 0 [] false true true 0);
+   ARefer 0 (mk_ref [1;2]%N 2 true 172800 None true 0 false 0 [] false true true 0);
+   ASeed 1 1 [1;3;9]%N false 0;
+   ARefer 1 (mk_ref [1;3]%N 3 true 30 None true 0 false 0 [] false true true 0);
+   AStore 1 2 (3600 * s) 0] ++
+  (if fold then [AFold 0 1] else []) ++ [AStore 0 1 (3600 * s) 0].
+
+Example ex_dname_negative_leg :
+  let s := 1000000000 in
+  map ae_end (st_ans (run code_fx (ex_alias_acts true) st_init)) = [30 * s; 30 * s] /\
+  map ae_end (st_ans (run code_fx (ex_alias_acts false) st_init)) = [3600 * s; 30 * s].
+Proof. vm_compute. split; reflexivity. Qed.
+
 (* a referral that arrives while another resolution has already stored the delegation (the cached branch):
    nothing is written, the descent continues with the cached servers and with the SHORTER of the cached
    lease and the deadline of the referral just observed, and the request tree is bounded by it *)
